@@ -89,17 +89,17 @@ CHECKS = {
     "C17": ("differential testing Rust API vs C++ API plus model-based container histories on both sides of the FFI, under ASan/UBSan and a ledger allocator",
             "exploration",
             "Generated universes are solved through resolvo::solve with a C++ provider compiled against the current headers and through the Rust API (exact equality of solution / error text); generated operation histories drive resolvo::Vector/String in C++ and resolvo_cpp's Vector/String in Rust, crossing the boundary in both directions, against models; memory safety comes from AddressSanitizer (Rust and C++), UBSan traps (C++) and a ledger global allocator that checks dealloc layouts and per-case leaks.",
-            "Sanitizers observe executed paths only; element types generated are id structs and String; push_back never receives a reference into the same vector (not promised by the header). Needs the verif-hooks feature of resolvo_cpp (re-export of the container types).",
+            "Sanitizers observe executed paths only (thorough tier adds strict Miri for the Rust side of the containers); element types generated are id structs and String; push_back never receives a reference into the same vector (not promised by the header). Needs the verif-hooks feature of resolvo_cpp (re-export of the container types).",
             "DESIGN.md 3/C17"),
     "C18": ("stateful property testing of Pool interning against reference maps with held references",
             "exploration",
             "Histories of intern/resolve/lookup calls across chunk boundaries are checked against HashMap/Vec models; raw copies of every returned reference are re-read after later insertions.",
-            "Reference stability is checked by re-reading through saved raw pointers (a dangling pointer is only detected if the bytes changed or the allocator faults; Miri/ASan runs are a planned extension).",
+            "Quick tier: reference stability is checked by re-reading through saved raw pointers. Thorough tier additionally runs the histories inside an AddressSanitizer-instrumented child and under Miri (validation, Stacked Borrows, leak check), so a dangling or moved reference is a reported error rather than luck.",
             "DESIGN.md 3/C18"),
     "C19": ("stateful property testing of Mapping against a BTreeMap model",
             "exploration",
             "Generated insert/unset/get/get_mut/iter/serde histories over dense, offset, sparse and chunk-edge id distributions, compared with BTreeMap after every step, in release and debug builds.",
-            "Ids below ~1000 (the structure allocates by max id).",
+            "Ids below ~1000 (the structure allocates by max id). Thorough tier adds an AddressSanitizer stage and a Miri tier for the get_unchecked paths.",
             "DESIGN.md 3/C19"),
     "C20": ("stateful property testing of SolverCache against the provider tables, incl. re-entrant queries from sort_candidates",
             "exploration",
